@@ -126,6 +126,16 @@ func (d *Decoder) readBool(expectedTag Tag) (v bool, err error) {
 	return
 }
 
+// readChunkSize is the unit in which string payloads are read
+const readChunkSize = 4096
+
+func minUint32(a, b uint32) uint32 {
+	if a < b {
+		return a
+	}
+	return b
+}
+
 func (d *Decoder) readByteSlice(expectedTag Tag, expectedType Type) (n int, v []byte, err error) {
 	if err = d.expectTag(expectedTag); err != nil {
 		return
@@ -140,10 +150,23 @@ func (d *Decoder) readByteSlice(expectedTag Tag, expectedType Type) (n int, v []
 		return
 	}
 
-	v = make([]byte, l)
-	_, err = io.ReadFull(d.r, v)
-	if err != nil {
-		return
+	// grow the buffer as data actually arrives: the declared length is untrusted input
+	// and must not drive the allocation
+	v = make([]byte, 0, minUint32(l, readChunkSize))
+	for uint32(len(v)) < l {
+		var (
+			chunk [readChunkSize]byte
+			nn    int
+		)
+
+		nn, err = io.ReadFull(d.r, chunk[:minUint32(l-uint32(len(v)), readChunkSize)])
+		v = append(v, chunk[:nn]...)
+		if err != nil {
+			if err == io.EOF && len(v) > 0 {
+				err = io.ErrUnexpectedEOF
+			}
+			return
+		}
 	}
 
 	n = int(l) + 8
